@@ -671,7 +671,7 @@ impl Exec {
                 self.follower = None;
                 let store = self.store.take().unwrap();
                 // clean close: pending collector work runs before the store closes
-                if !common::close_store(store, Duration::from_secs(20)) {
+                if !common::close_store(store, Duration::from_secs(75)) {
                     panic!("harness: store did not close");
                 }
                 // all queued tasks ran
